@@ -35,6 +35,8 @@ struct Shared {
     replies_sent: Mutex<Vec<Vec<u8>>>,
     reply: Mutex<Reply>,
     junk: Mutex<Option<String>>,
+    /// one-shot: deliver the next reply in two pieces, cut at this byte offset, with this pause (ms) in between
+    split_reply: Mutex<Option<(usize, u64)>>,
 }
 
 impl Shared {
@@ -117,10 +119,31 @@ fn tcp_conn(mut s: TcpStream, sh: Arc<Shared>) {
         let reply = sh.reply_for(&f);
         sh.frames.lock().unwrap().push(f);
         if let Some(r) = reply {
-            if s.write_all(&r).is_err() {
+            let split = sh.split_reply.lock().unwrap().take();
+            let ok = match split {
+                Some((cut, ms)) if cut > 0 && cut < r.len() => {
+                    let a = s.write_all(&r[..cut]).and_then(|_| s.flush());
+                    std::thread::sleep(Duration::from_millis(ms));
+                    a.and_then(|_| s.write_all(&r[cut..])).is_ok()
+                }
+                _ => s.write_all(&r).is_ok(),
+            };
+            if !ok {
                 return;
             }
         }
+    }
+}
+
+/// Serializes as a map with tuple keys: serde_json writes the opening bytes and then fails ("key must be a string").
+struct BadBody(u64);
+impl serde::Serialize for BadBody {
+    fn serialize<S: serde::Serializer>(&self, ser: S) -> Result<S::Ok, S::Error> {
+        use serde::ser::SerializeMap;
+        let mut m = ser.serialize_map(Some(2))?;
+        m.serialize_entry("device", &format!("probe-{}", self.0))?;
+        m.serialize_entry(&(1u8, 2u8), &self.0)?;
+        m.end()
     }
 }
 
@@ -639,6 +662,22 @@ fn run_inner(args: &Args, rep: &mut Report) {
                 _ => *r.fork(3).pick(&COMMON),
             };
             let p = plan(&mut r.fork(4), api);
+            if i % 8 == 5 {
+                // a request whose body fails to serialize part-way: it must fail, put nothing on the wire, and leave nothing behind
+                // that changes the NEXT request's bytes (judged below like any other)
+                let bad = BadBody(i);
+                let e = match c {
+                    AnyClient::Sync(c) => if i % 16 == 5 { c.call_json(&p.path, &bad).is_err() } else { c.notify_json(&p.path, &bad).is_err() },
+                    AnyClient::Async(c) => if i % 16 == 5 { rt.block_on(c.call_json(&p.path, &bad)).is_err() } else { rt.block_on(c.notify_json(&p.path, &bad)).is_err() },
+                    AnyClient::Ws(c) => if i % 16 == 5 { rt.block_on(c.call_json(&p.path, &bad)).is_err() } else { rt.block_on(c.notify_json(&p.path, &bad)).is_err() },
+                };
+                std::thread::sleep(Duration::from_millis(2));
+                let stray = sh.take_frames();
+                rep.count("requests_with_unserializable_bodies", 1);
+                if !e || !stray.is_empty() {
+                    rep.violation(format!("C01:unserializable-body:{who}"), format!("{who}: a request whose body cannot be serialized returned ok={} and {} frame(s) reached the peer", !e, stray.len()), json!({"who": who, "path": p.path}));
+                }
+            }
             let res = run_call(c, &rt, &p);
             if !sh.wait_frames(p.expect.len()) && res.is_ok() {
                 // fall through: judge reports the count mismatch
@@ -669,6 +708,27 @@ fn run_inner(args: &Args, rep: &mut Report) {
         }
         if rep.violations.len() > 20 {
             break;
+        }
+    }
+    // ---- part A2: the reply reaches the TCP clients in two pieces with a pause well above a second in between (cut inside the
+    // header, at the header end, inside the body): the call returns exactly the reply that was sent
+    for (ci, (who, c, sh)) in clients.iter().enumerate().take(2) {
+        for (k, cut_at) in [7usize, 48, 60].iter().enumerate() {
+            let pause = if args.thorough() { 2600 } else { 1250 };
+            let v = json!({"piece": k, "pad": "x".repeat(40), "who": who});
+            *sh.split_reply.lock().unwrap() = Some((*cut_at, pause));
+            let got: Result<Value, String> = match c {
+                AnyClient::Sync(c) => c.call_json("/in/pieces", &v).map_err(|e| e.to_string()),
+                AnyClient::Async(c) => rt.block_on(c.call_json("/in/pieces", &v)).map_err(|e| e.to_string()),
+                AnyClient::Ws(_) => continue,
+            };
+            let _ = sh.take_frames();
+            rep.eval();
+            rep.distinct(&("reply-in-pieces", ci, cut_at));
+            match got {
+                Ok(g) if g == v => rep.count("replies_delivered_in_two_pieces_returned_intact", 1),
+                other => rep.violation(format!("C01:reply-in-pieces:{who}"), format!("{who}: the reply was delivered in two pieces (cut at byte {cut_at}, {pause} ms apart); the call returned {other:?} instead of the echoed value"), json!({"who": who, "cut": cut_at, "pause_ms": pause})),
+            }
         }
     }
     rep.count("client_calls_returning_err", call_errs);
